@@ -222,8 +222,8 @@ def single_writer(ctx: Ctx):
 def final_comparison(ctx: Ctx):
     prog = ctx.prog
     fi = prog.func(GEN)
-    for pbp in (True, False):
-        site = f"{GEN}::final-comparison::parse_bad_pkts={pbp}"
+    for pbp in (True, False, 0, 1):        # the option is tested for truth: 0 excludes bad packets like False does
+        site = f"{GEN}::final-comparison::parse_bad_pkts={pbp!r}"
         bad = None
         try:
             for delta, flags in [(dl, 3) for dl in range(-9, 10)] + [(dl, fl) for fl in (0, 1, 2) for dl in (-8, -1, 0, 1, 16)]:
@@ -240,7 +240,7 @@ def final_comparison(ctx: Ctx):
                 ys = it.call(fi, [model_definition(it, "R"), [raw_packet(b"\x01\x02\x03", apid=9, flags=flags)]],
                              {"parse_bad_pkts": pbp})
                 want_warn = delta != 0
-                want_yield = delta == 0 or pbp
+                want_yield = delta == 0 or bool(pbp)
                 if bool(warned) != want_warn or (len(ys) == 1) != want_yield:
                     bad = (f"sequence flags {flags:02b}: definition consumed {delta:+d} bits relative to the packet length: warned={bool(warned)}, "
                            f"yielded={len(ys) == 1}; expected warned={want_warn}, yielded={want_yield}")
@@ -282,6 +282,10 @@ LAYOUTS = {
          'dynamic_length_reference="LEN", encoding="US-ASCII")))', _u8("TAIL")],
         lambda u: (None if not u else 8 + u[0] + 8)),
     "one parameter listed twice (A, B, A)": (["*(lambda a: [a, " + _u8("B") + ", a])(" + _u8("A") + ")"], lambda u: 24),
+    "string with an 8-bit leading size tag in a 24-bit buffer, then TAIL": (
+        ['parameters.Parameter("LS", parameter_types.StringParameterType("LS_T", parameter_types.encodings.StringDataEncoding('
+         'fixed_raw_length=24, leading_length_size=8, encoding="US-ASCII")))', _u8("TAIL")],
+        lambda u: (None if not u or u[0] > 16 or u[0] % 8 else 32)),          # a tag that points beyond its buffer is invalid
     "32-bit int after one byte": ([_u8("A"), 'parameters.Parameter("BIG", parameter_types.IntegerParameterType("BIG_T", parameter_types.encodings.IntegerDataEncoding(32, "unsigned")))'],
                                   lambda u: 40),
     "32-bit float after one byte": ([_u8("A"), 'parameters.Parameter("FL", parameter_types.FloatParameterType("FL_T", parameter_types.encodings.FloatDataEncoding(32)))'],
